@@ -81,8 +81,16 @@ func (e *Explorer) Explore(body func()) {
 	ex = e
 	e.Start = time.Now()
 	e.prefix = nil
-	for {
+	progress := os.Getenv("VERIF_PROGRESS") != ""
+	for n := 0; ; n++ {
 		e.runOnce(body)
+		if progress && n%200 == 0 {
+			var ch []int
+			for _, d := range e.trace {
+				ch = append(ch, d.choice)
+			}
+			fmt.Fprintf(os.Stderr, "progress: runs=%d paths=%d aborted=%d infeasible=%d queries=%d trace=%v\n", n, e.Paths, e.Aborted, e.Infeasible, e.S.Queries, ch)
+		}
 		// backtrack: find deepest decision with an untried alternative
 		tr := e.trace
 		i := len(tr) - 1
